@@ -33,10 +33,10 @@ def harness_error(msg):
 
 def selftest_digests(prop, seed, n, tier, options):
     out = {}
+    from depsim import runner
     for index in range(n):
-        spec = prop.generate(seed, index, tier, options)
-        r1 = prop.execute(spec)
-        out[str(index)] = [r1['log_digest'], __import__('depsim.runner', fromlist=['digest']).digest(spec)]
+        spec, r1 = runner.run_one(prop, seed, index, tier, options)
+        out[str(index)] = [r1['log_digest'], runner.digest(spec)]
     return out
 
 
@@ -186,7 +186,7 @@ def main():
                               f'{v["oracle"]}: {v["message"]}')
         if not args.no_shrink:
             spec, steps = runner.shrink(args.property, spec, v, budget_s=45 if args.tier == 'quick' else 180)
-            res = prop.execute(spec)
+            res = runner.execute_spec(prop, spec)
             same = [x for x in res['violations'] if runner.same_failure(x, v)]
             if same:
                 v = same[0]
@@ -204,7 +204,11 @@ def main():
     extra = {'selftest': selftest, 'components': COMPONENTS, 'search_wall_s': round(search_wall, 2),
              'jobs': args.jobs, 'known_findings_seen': sorted(known_printed)}
     if hasattr(prop, 'evidence_extra'):
+        prop._tier = args.tier
         extra.update(prop.evidence_extra(stats))
+        rp = extra.get('real_pool_cross_check')
+        if rp and (rp.get('error') or rp.get('equal') != rp.get('calls')):
+            harness_error(f'SimPool and the real multiprocessing.Pool disagree (model validation): {rp}')
     warn = [k for k in getattr(prop, 'expected_probes', []) if stats['counters'].get(k, 0) == 0]
     if warn:
         extra['probes_stuck_at_zero'] = warn
